@@ -26,7 +26,7 @@ AttrOk(step, a, res) ==
        CASE step.op = "Normalize" -> NormalizeOk(a, step.args.id, data)
          [] step.op = "FlatNormals" -> FlatNormalsOk(a, data)
          [] step.op = "SmoothNormals" -> SmoothNormalsOk(a, data)
-         [] OTHER -> LaplacianOk(a, step.args.id, step.args.iters, data)
+         [] OTHER -> LaplacianOk(a, step.args.id, step.args.iters, step.args.lam2, data)
 
 Expect(step, pool) ==
     LET op == step.op
